@@ -209,7 +209,7 @@ func c05Run(c *Ctx) {
 		}
 		return true
 	}
-	fullLen, structLen, spliceLen := 4, 5, 3
+	fullLen, structLen, spliceLen := 4, 6, 3
 	if c.Thorough() {
 		fullLen, structLen, spliceLen = 5, 7, 4
 	}
@@ -239,7 +239,7 @@ func init() {
 			if tier == "thorough" {
 				return map[string]any{"lexemes": len(c05Lexemes), "len_full": 5, "len_structural": 7, "len_spliced": 4, "structural_lexemes": len(c05Structural)}
 			}
-			return map[string]any{"lexemes": len(c05Lexemes), "len_full": 4, "len_structural": 5, "len_spliced": 3, "structural_lexemes": len(c05Structural)}
+			return map[string]any{"lexemes": len(c05Lexemes), "len_full": 4, "len_structural": 6, "len_spliced": 3, "structural_lexemes": len(c05Structural)}
 		},
 		Assume: []string{"the degenerate comment {{--}} and the NUL byte are outside the alphabet's defined domain"},
 		Run:    c05Run,
